@@ -1183,12 +1183,41 @@ Definition step (m : imode) : body :=
   | AfterAfterFrameset => step_after_after_frameset
   end.
 
+(* ---------- THE SHAPE ASSUMPTION (ghost assertion, Panic site 99) ----------
+   Four facts relating the insertion mode to the stack of open elements that the no-panic proof
+   (TreeInvMain.tree_no_panic_partial) does not derive, because they need a full grammar of the stack per mode:
+     - in the modes "in head", "in head noscript" and "text" the stack holds at least two elements;
+     - in the mode "text" the current node is an HTML element;
+     - in the mode "in cell" a td or th element is open;
+     - in the mode "in table body", when the (html5ever) test of the <caption>/<col>/.../</table> arm succeeds,
+       a tbody / tfoot / thead / template element is open.
+   [shape_check] is NOT part of html5ever: it is a ghost assertion evaluated at the two places where the rules of
+   the current insertion mode are entered (every iteration of process_to_completion, and after the pops of
+   unexpected_start_tag_in_foreign_content).  The theorem says that site 99 is the only Panic site the model can
+   reach; every correspondence run doubles as a test that it is not reached either (the model would print
+   PANIC 99 where the implementation does not panic). *)
+Definition is_mode (m m' : imode) : bool := mode_eqb m m'.
+Definition hshape_b (s : st) : bool :=
+  (if is_mode (mode s) InHead || is_mode (mode s) InHeadNoscript || is_mode (mode s) Text
+   then Nat.leb 2 (length (open_elems s)) else true) &&
+  (if is_mode (mode s) Text
+   then match vlast (open_elems s) with Some h => str_eqb (fst (ename_of s h)) ns_html | None => false end else true) &&
+  (if is_mode (mode s) InCell
+   then existsb (fun x => in_set td_th (ename_of s x)) (open_elems s) else true) &&
+  (if is_mode (mode s) InTableBody && dev_on s 11 &&
+      in_scope s table_scope (fun e => in_set table_outer_body (ename_of s e))
+   then existsb (fun x => in_set (html_names ["tbody"; "tfoot"; "thead"; "template"]%string) (ename_of s x)) (open_elems s)
+   else true).
+Definition shape_check : M unit :=
+  s <- get ;; if hshape_b s then ret tt else panic 99.
+
 (* ---------- step_foreign (rules.rs:1608-1689) ---------- *)
 (* fn unexpected_start_tag_in_foreign_content *)
 Definition unexpected_start_tag_in_foreign_content : body :=
   fun t =>
     parse_error ;;
     pop_to_html_or_integration_point ;;
+    shape_check ;;
     s <- get ;;
     step (mode s) t.
 
